@@ -313,8 +313,16 @@ func runGenerated(t *testing.T, p *Property) {
 	startWatchdog()
 	st := newStats(p.ID, p.Rule)
 	defer st.write(false)
+	var firstFailure time.Time
+	shrinkBudget := time.Duration(envFloat("VERIF_SHRINK_SECS", 90) * float64(time.Second))
 	rapid.Check(t, func(rt *rapid.T) {
 		c := p.Gen(rt, st)
+		if !firstFailure.IsZero() && time.Since(firstFailure) > shrinkBudget {
+			// rapid only looks at its shrink deadline between shrink steps, and one step can run many expensive cases.
+			// Once the budget is spent every further candidate is declared passing without being run: rapid then keeps
+			// the smallest failing case found so far, which is the one already written to the fail file.
+			return
+		}
 		beginCase(p.ID, c)
 		t0 := time.Now()
 		o := p.Check(c)
@@ -322,10 +330,22 @@ func runGenerated(t *testing.T, p *Property) {
 		endCase()
 		st.record(c, o)
 		if o.Err != nil {
+			if firstFailure.IsZero() {
+				firstFailure = time.Now()
+			}
 			writeFailCase(p.ID, c, o.Err)
 			rt.Fatalf("property %s violated: %v\ncase: %s", p.ID, o.Err, mustRaw(c))
 		}
 	})
+}
+
+func envFloat(k string, d float64) float64 {
+	if v := os.Getenv(k); v != "" {
+		if f, err := strconv.ParseFloat(v, 64); err == nil {
+			return f
+		}
+	}
+	return d
 }
 
 // runCase checks one decoded case outside rapid (corpus, replay, exhaustive enumerations).
